@@ -272,6 +272,8 @@ def check(prog, run):
     seen_loops = {}
     for_ranges = set()
     undecided = []
+    lost_args = {}            # decoder -> loops undecided because the harness could not supply an argument
+    reached_from = {}         # function -> the decoder entry points whose runs went through it
     targets = targets + inherited_decoders(prog, targets)
     for f in targets:
         nfunc += 1
@@ -301,8 +303,12 @@ def check(prog, run):
                 kw = {"est": 1, "mcsb": 0x1F, "c2ei": 1, "scsb": 2}
             fn = I.get_attr(f.cls, f.name, None, _F()) if f.kind != "function" else f
             return I.call(getattr(f, "partial", None) or fn, args, kw, None, _F())
+        I.visited = set()
         try:
             paths = I.explore(th, max_paths=3000)
+            for q in I.visited:
+                if q != f.qualname:
+                    reached_from.setdefault(q, set()).add(f.qualname)
         except AnalysisError as e:
             if e.reason == "static-loop-does-not-terminate":
                 run.violation("loop-has-variant", "%s static loop" % f.qualname, "a loop whose test is static never terminates: %s" % e.detail,
@@ -352,6 +358,17 @@ def check(prog, run):
                     # no len(...) in the test itself: an index compared with a bound that is not read from the buffer's content
                     # (a static number, or a length computed earlier) and advanced by at least one per iteration is a variant too
                     verdict = cursor_variant(I, l, dp, p)
+                    head_env = l["raw"].get("head") or {}
+                    lost_names = sorted(n.id for n in ast.walk(test) if isinstance(n, ast.Name)
+                                        and isinstance(head_env.get(n.id), (Unknown, SymAny)))
+                    if verdict is not True and lost_names:
+                        # the test is over a value the analysis does not have (an argument of a helper the harness cannot
+                        # supply, a table it could not resolve): nothing is known about the loop -- not "no variant"
+                        hv = head_env[lost_names[0]]
+                        lost_args.setdefault(getattr(f, "inherited_from", f).qualname if getattr(f, "partial", None) is None else f.partial.fn.qualname, []).append(
+                            "%s: the loop test depends on `%s`, a value the analysis does not follow (%s)"
+                            % (lid, lost_names[0], getattr(hv, "reason", None) or "caller-supplied value of unknown type"))
+                        continue
                     if verdict is True:
                         run.ok("loop-has-variant", lid, {"variant": "bound - index", "path": p.cond_str()[:120]})
                     elif verdict and "advances by at least" in verdict and any(e["kind"] == "imprecise-decision" for e in p.events):
@@ -402,6 +419,14 @@ def check(prog, run):
         else:
             run.ok("decoder-call-graph-acyclic", f.qualname, nontrivial=False)
     nloops = len(seen_loops) + len(for_ranges)
+    for q, items in sorted(lost_args.items()):
+        callers = sorted(reached_from.get(q, ()))
+        if callers:
+            # a helper the harness could not call on its own (an argument only its caller can make up) is decided where it is
+            # actually used: inside the runs of the decoders that call it, with the values they pass
+            run.assumptions.append("%s is decided through its callers (%s), not as an entry point of its own" % (q, ", ".join(callers[:3])))
+        else:
+            undecided.extend(items)
     if undecided and not any(v["rule"] in ("loop-has-variant", "no-iteration-count-from-content") for v in run.violations):
         raise AnalysisError("loop-variant-undecided", "; ".join(undecided[:2]))
     # every while loop in a decoder must have been seen by the summariser or be static
